@@ -18,6 +18,8 @@ structure World where
   anSpace : Option Bool := none  -- `space.allow_none`
   anModel : Bool := false        -- `model.allow_none`
   st : St := {}
+  /-- the most recent `eval`: the element and the state it started from (for `obs handled`) -/
+  lastEval : Option (Node × St) := none
 
 def World.cell? (w : World) (c : CellId) : Option CellDef :=
   (w.cells.find? (·.1 == c)).map (·.2)
@@ -73,6 +75,20 @@ def obs (w : World) (what : String) : World × String :=
     (w, s!"tb {e} " ++ " ".intercalate (s.lastTb.map showNode))
   | "quiescent" =>
     (w, s!"q stack={s.stack.length} idx={s.idx.length} refstack={s.refstack.length}")
+  | "handled" =>
+    -- measurement for the harness' coverage report, not an observable of the implementation: the roll-back
+    -- list of the most recent top-level evaluation just before `_start_exec` consumes it – entries in all,
+    -- entries of exceptions other than the last one raised (failures that formulas handled themselves, when
+    -- the evaluation failed), number of such exceptions
+    match w.lastEval with
+    | none => (w, "handled 0 0 0")
+    | some (n, s0) =>
+      match (if w.env.cached n.1 then lookup s0.data n else none) with
+      | some _ => (w, "handled 0 0 0")
+      | none =>
+        let p := runN w.env (w.env.maxdepth + 1) n s0
+        let other := p.2.rolledback.filter (fun x => x.2 != p.2.curExc)
+        (w, s!"handled {p.2.rolledback.length} {other.length} {(other.map (·.2)).eraseDups.length}")
   | _ => (w, "bad-op")
 
 def step (w : World) (line : String) : World × String :=
@@ -102,9 +118,10 @@ def step (w : World) (line : String) : World × String :=
         if key.length != d.nparams then (w, "err Type") else
         let (r, st') := evalTop w.env (id, key) w.st
         match r with
-        | .ok v => ({ w with st := st' }, "ok " ++ showVal v)
+        | .ok v => ({ w with st := st', lastEval := some ((id, key), w.st) }, "ok " ++ showVal v)
         | .formulaError e tb =>
-          ({ w with st := st' }, s!"err Formula {showErr e} tb=" ++ ",".intercalate (tb.map showNode))
+          ({ w with st := st', lastEval := some ((id, key), w.st) },
+           s!"err Formula {showErr e} tb=" ++ ",".intercalate (tb.map showNode))
     | _, _ => (w, "bad-op")
   | "set" :: id :: rest =>
     match id.toNat?, rest.reverse with
